@@ -255,11 +255,12 @@ impl<'a> Cmap12<'a> {
         let start_glyph_id = group.start_glyph_id();
         let end_code = if let Some(limits) = limits {
             // Set our end code to the minimum of our character and glyph
-            // count limit
+            // count limit. The end code is exclusive while max_char is the
+            // last valid character.
             (limits.glyph_count as u64)
                 .saturating_sub(start_glyph_id as u64)
                 .saturating_add(start_code as u64)
-                .min(end_code.min(limits.max_char as u64))
+                .min(end_code.min(limits.max_char as u64 + 1))
         } else {
             end_code
         };
@@ -844,6 +845,26 @@ mod tests {
             ..Default::default()
         };
         assert!(cmap12.iter_with_limits(limits).count() <= char::MAX as usize + 1);
+    }
+
+    #[test]
+    fn cmap12_iter_limits_include_max_char() {
+        let data = be_buffer! {
+            12u16,      // format
+            0u16,       // reserved, set to 0
+            0u32,       // length, ignored
+            0u32,       // language, ignored
+            1u32,       // numGroups
+            // groups: [startCode, endCode, startGlyphID]
+            [0x10FFFE_u32, 0x10FFFF_u32, 5] // group 0
+        };
+        let cmap12 = Cmap12::read(data.data().into()).unwrap();
+        let mappings = cmap12
+            .iter_with_limits(Cmap12IterLimits::default())
+            .map(|(ch, gid)| (ch, gid.to_u32()))
+            .collect::<Vec<_>>();
+        // char::MAX is a valid character and must not be dropped
+        assert_eq!(mappings, &[(0x10FFFE, 5), (0x10FFFF, 6)]);
     }
 
     #[test]
